@@ -337,6 +337,15 @@ func genC06(c *Cfg, emit func([]string)) {
 			emit(h)
 		}
 	}
+	// directed: in one request, a transfer that moves its amount and then cannot pay its fee (fails as a
+	// whole) followed by transfers that succeed - on both routes, first / middle position
+	for _, route := range []string{"tasks", "batch"} {
+		for _, amt := range []string{"1000", "995", "991"} {
+			emit([]string{"reset", "emit u0 1000", "emit u1 1000", "setfeeaddr u2", "setfee 1000000", "dump",
+				fmt.Sprintf("tx2 %s u0 u1 %s u1 u0 5", route, amt), "dump", fmt.Sprintf("tx2 %s u1 u0 7 u0 u1 %s", route, amt), "dump",
+				fmt.Sprintf("tx2 %s u0 u1 %s u0 u1 3", route, amt), "dump", "transfer u1 u0 1", "dump"})
+		}
+	}
 	for i := 0; i < nHist; i++ {
 		h := []string{"reset"}
 		base := pick([]string{"1000", "5", "340282366920938463463374607431768211456", "115792089237316195423570985008687907853269984665640564039457584007913129639936"})
